@@ -4,7 +4,7 @@ from __future__ import annotations
 
 from hypothesis import strategies as st
 
-from .. import feasible, gen
+from .. import feasible, gen, obs
 from .. import fingerprint as fp
 from ..lib import Driver
 
@@ -40,10 +40,11 @@ def _cases(draw, tier):
             max_total=36 if big else 25,
             zero_ok=filters is None,
             benchmarks=("ft06", "la01") if big else ("ft06",),
-            big_ok=True,
+            big_ok=2,
         )
     )
-    return {"inst": inst, "filters": filters, "history": draw(gen.histories())}
+    observers = draw(gen.weighted((2, st.just([])), (1, obs.feature_configs(min_size=1, max_size=3))))
+    return {"inst": inst, "filters": filters, "history": draw(gen.histories()), "observers": observers}
 
 
 def strategy(tier):
@@ -56,6 +57,10 @@ def check_case(case, ctx):
     twin = Driver(inst, None) if filters else None
     d, m = drv.dispatcher, drv.model
     n = m.n_ops
+    big = any(x > 2**24 for r in inst["durations"] for x in r)
+    for cfg in case.get("observers", []):
+        if not big:  # feature observers hold float32 values
+            obs.make_feature_observer(d, cfg)
 
     def observe(where, pre=0):
         if pre:
